@@ -256,6 +256,15 @@ func wrapped(data []byte, want result, label string) {
 				"what": fmt.Sprintf("reading from memory gives %s, reading through %s gives %s", want.kind, kind, got.kind)})
 		}
 	}
+	// a complete file (all announced tracks there, the last one ended): nothing
+	// behind its last byte is needed, so a source that has no end of file to
+	// offer there (a connection that is reset after the transfer) reads the same
+	if n := len(want.tracks); want.kind == "none" && len(data) >= 14 && n > 0 && n == int(data[10])<<8|int(data[11]) &&
+		len(want.tracks[n-1]) > 0 && strings.HasSuffix(want.tracks[n-1][len(want.tracks[n-1])-1], ":ff2f00") {
+		try("complete-file-then-error", &faultio.FragReader{Data: data, FinalErr: faultio.ErrInjected})
+		try("complete-file-then-error-7-byte-reader", &faultio.FragReader{Data: data, FinalErr: faultio.ErrInjected, MaxPerCall: 7})
+		ctx.Add("complete_then_error_files", 1)
+	}
 	try("half-reader", &faultio.FragReader{Data: data, Half: true})
 	try("half-reader+eof-with-data", &faultio.FragReader{Data: data, Half: true, EOFWithData: true})
 	for _, size := range []int{16, 17, 64, 4096} {
